@@ -19,6 +19,7 @@ From LZ4V Require Import Proofs.DecConverse Proofs.DecConverseTop.
 From LZ4V Require Import Proofs.FastCap Proofs.InplaceMargin.
 From LZ4V Require Import Model.DecFast Proofs.DecFastRefine Proofs.DecFastTop.
 From LZ4V Require Import Proofs.DecFootprint.
+From LZ4V Require Import Model.DecInplace Proofs.DecInplaceStep Proofs.DecInplaceRun Proofs.DecInplaceTop.
 Import ListNotations.
 Local Open Scope Z_scope.
 
@@ -181,7 +182,7 @@ Theorem C05_fast_continue_step :
     Z.of_nat (length B) <= srcSize ->
     let '(r, am', st', k) := decompress_fast_continue am st srcm srcSize dest (Z.of_nat (length D)) in
     r = Z.of_nat (length B) /\ k = true /\ src_at am' dest D /\
-    (0 < Z.of_nat (length B) -> st' = next_state st dest (Z.of_nat (length D))).
+    (0 < Z.of_nat (length B) -> 0 < Z.of_nat (length D) -> st' = next_state st dest (Z.of_nat (length D))).
 Proof. exact fast_continue_step. Qed.
 Print Assumptions C05_fast_continue_step.
 
@@ -227,3 +228,60 @@ Theorem C05_inplace_footprint_partial :
     end.
 Proof. exact inplace_footprint_partial. Qed.
 Print Assumptions C05_inplace_footprint_partial.
+
+(* In-place decoding, FULL aliased statement (supersedes the partial result above).
+   Model.DecInplace.decompress_safe_inplace is LZ4_decompress_safe(buf + pos, buf, srcSize, cap)
+   with source and destination in ONE memory: every input load goes to the current contents of
+   that memory, in the order of the C code (token and literal-length bytes before any store; the
+   literal copy chunk by chunk inside the memory; offset and match-length bytes after the literal
+   stores; the next iteration from the memory the match copy left).  For every strictly valid
+   block B that does not expand (|B| <= n = |D|, what lz4.h presumes) stored at the END of a
+   buffer of n + LZ4_DECOMPRESS_INPLACE_MARGIN(n) bytes of byte values, any capacity >= n, fast
+   loop on or off: the call returns n, every access stays inside the buffer resp. below the
+   capacity (flag), and [0, n) holds exactly D.
+   Proof: (a) one iteration started with the input at and above ip intact and ip >= op + 31 is
+   EQUAL to the iteration of Model.Dec reading a separate copy of the input, for every input
+   (DecInplaceStep.a_step_eq); (b) induction over the sequences with the distance invariant
+   ip - op = margin + total_len rest - |remaining input| >= 31 (InplaceMargin.suffix_potential)
+   and the write footprint op' + 31 of DecFootprint. *)
+Theorem C05_inplace_decodes :
+  forall (fastloop : bool) (B D : list Z) (m0 : mem) (cap : Z),
+    let n := Z.of_nat (length D) in
+    let pos := n + inplace_margin n - Z.of_nat (length B) in
+    strict_valid [] B = Some D -> bytes B -> Z.of_nat (length B) <= n ->
+    (forall a, 0 <= get m0 a < 256) -> src_at m0 pos B -> n <= cap ->
+    inplace_decodes_to (decompress_safe_inplace fastloop pos (Z.of_nat (length B)) cap m0) D.
+Proof. exact inplace_decodes. Qed.
+Print Assumptions C05_inplace_decodes.
+
+(* the same for every margin (n >> 8) + base with base >= 33 *)
+Theorem C05_inplace_decodes_any_margin :
+  forall (fastloop : bool) (base : Z) (B D : list Z) (m0 : mem) (cap : Z),
+    33 <= base ->
+    strict_valid [] B = Some D -> bytes B -> Z.of_nat (length B) <= Z.of_nat (length D) ->
+    (forall a, 0 <= get m0 a < 256) ->
+    src_at m0 (inplace_pos base (Z.of_nat (length D)) (Z.of_nat (length B))) B ->
+    Z.of_nat (length D) <= cap ->
+    inplace_decodes_to
+      (decompress_safe_inplace fastloop (inplace_pos base (Z.of_nat (length D)) (Z.of_nat (length B)))
+                               (Z.of_nat (length B)) cap m0) D.
+Proof. exact inplace_decodes_base. Qed.
+Print Assumptions C05_inplace_decodes_any_margin.
+
+(* non-vacuity on the F16 witness (16 literals | offset 16, length 33 | 65 literals, 88 bytes,
+   114 decoded) inside its buffer of 114 + 33 bytes, evaluated: both loops, capacity 114 and 147 *)
+Example C05_inplace_nonvacuous :
+  forall fastloop cap, cap = 114 \/ cap = 147 ->
+    f16_run fastloop INPLACE_MARGIN_BASE cap = (114, true, repeat 7 16 ++ repeat 7 33 ++ repeat 9 65).
+Proof. exact f16_inplace_ok. Qed.
+
+(* finding F16 in the model: with the former margin base 32 the same valid, shrinking block does
+   NOT decode in place (the 32-byte stripe of the match copy overwrites the token of the last
+   sequence); all accesses are still inside the buffer *)
+Theorem C05_inplace_margin32_refuted :
+  strict_valid [] f16_block = Some (repeat 7 16 ++ repeat 7 33 ++ repeat 9 65)
+  /\ Z.of_nat (length f16_block) = 88
+  /\ (let '(r, k, img) := f16_run true 32 114 in r <> 114 /\ k = true)
+  /\ (let '(r, k, img) := f16_run true 32 146 in r <> 114 /\ k = true).
+Proof. exact f16_margin32_refuted. Qed.
+Print Assumptions C05_inplace_margin32_refuted.
